@@ -655,6 +655,12 @@ func genPublic(c *core.Check, emit func(prog) bool) {
 	modules := []string{
 		"import def,{imp1,imp2 as loc2} from 'm';import * as ns from 'n';export const ex1=imp1;export function exf(arg){var inner=arg;return inner+loc2}export default class ExC{}export {ex1 as renamed};var priv=def;export {priv}",
 		"export let a=1,b=2;let hidden=a+b;export {hidden as visible}",
+		// every form of import and export declaration, also the ones without bindings (a module is imported for its effects)
+		"import 'x'", "import {} from 'x'", "import d from 'x';d()", "import * as n from 'x';n.f()", "import d,{a} from 'x';d(a)", "import d,* as n from 'x';d(n)", "import {a as b} from 'x';b()", "import {default as d} from 'x';d()", "import {'s t' as st} from 'x';st()",
+		"export {}", "export {} from 'x'", "export * from 'x'", "export * as n from 'x'", "export {a} from 'x'", "export {a as b} from 'x'", "export {default} from 'x'", "export {default as d} from 'x'", "export {a as default} from 'x'", "var q=1;export {q as 's t'}",
+		"export default 1", "export default function(){}", "export default function f(){}", "export default class{}", "export default class C{}", "export default (function(){})()", "export default (class{}).name", "export default {a:1}", "export default [1]", "export default a=>a", "export default async function(){}", "export default function*(){}",
+		"export var a=1", "export let a=1", "export const a=1,b=2", "export function f(){}", "export class C{}", "export async function f(){}", "export function*g(){}", "export const {a,b:[c]}={a:1,b:[2]}", "var a=1,b=2;export {a,b}", "var a=1;export {a};export {a as b}",
+		"import a from 'x';export {a}", "import {a} from 'x';export default a", "import('x')", "var p=import('x');export {p}", "import.meta.url", "export {a as b,a as c} from 'x'", "import {a} from 'x';import {b} from 'x';a(b)", "import 'x';import 'y';import 'x'",
 	}
 	for _, s := range modules {
 		if !emit(prog{s, "global", true, true, nil}) {
